@@ -51,7 +51,12 @@ func runC20(c *rules.Ctx) {
 	for _, e := range entries {
 		c.Record("GI", e.Name, "signer", "the handler's message declares its signer through GetSigners", e.Signer != "", "signer field: "+e.Signer, c.P.Rel(e.Fn.Pos()))
 	}
-	paths := c.AuthPaths(entries, c20Sinks, 7)
+	depth := 7
+	if c.Tier == "thorough" {
+		depth = 11 // deeper call paths from the handlers to the sinks
+	}
+	paths := c.AuthPaths(entries, c20Sinks, depth)
+	c.R.Extra["auth_path_depth"] = depth
 	type agg struct {
 		n, bad   int
 		firstBad string
